@@ -14,7 +14,7 @@ LEVEL_TEXT = (
     '(c) an absent label raises: direct map subscripts outside the partial branches, the tolerant .get only inside map_slice_args '
     'where None raises, partial_selection=True only from IndexLevel.loc_to_iloc (who-may-call); (d) every loc route translates its '
     'key with the axis\' own _loc_to_iloc and delegates to the iloc route, row key to index and column key to columns; (e) the bloc '
-    'coordinate writer and reader agree on (row, t_start [+ col]) and advance the block offset on every path. Option forwarding: in every selection route each call to a resolved callee that accepts a parameter named like one of the function\'s own parameters passes it on (confirmed exceptions listed in sfa/rules/forwardrules.py). Label selection on a grown index: every read of Index._labels / _positions in the selection routes is dominated by the staleness guard (B.recache). Sibling defaults: a parameter taken by the same-named method of several container classes has the same default in each (confirmed exceptions listed in sfa/rules/forwardrules.py). Offset accumulation: the HLoc worklist walk of IndexLevel.loc_to_iloc hands the accumulated offset (popped offset + the node\'s own) to every child it pushes and to the leaf lookup. Open slice ends: under an offset (a sub-level of a hierarchy) every bound of the iloc slice LocMap.loc_to_iloc returns is explicit, so a half-open label slice at an inner depth stays inside its sub-level. Selection results own their labels: no selection route hands a grow-only member of its source (own_columns / own_index / own_data possibly True on a shared IndexGO / TypeBlocks) to the container it returns; otherwise later growth of either makes a label of the other select another label\'s data (C.own-handoff). Map-less route: every arm of Index._loc_to_iloc for an auto-integer index rejects negative integers before returning the key as a position (a negative label is absent, not a position from the end). Direction of the inclusive stop: every + 1 applied to a label-slice stop position is under a test of the sign of the step (four known findings: descending label slices stop early; the repair is blocked by a pinned test). Slice bounds under an offset: every start / stop position LocMap.map_slice_args yields has had the offset added on every path (exact, same-unit and coarser-unit datetime bounds). Not decided: NumPy '
+    'coordinate writer and reader agree on (row, t_start [+ col]) and advance the block offset on every path. Option forwarding: in every selection route each call to a resolved callee that accepts a parameter named like one of the function\'s own parameters passes it on (confirmed exceptions listed in sfa/rules/forwardrules.py). Label selection on a grown index: every read of Index._labels / _positions in the selection routes is dominated by the staleness guard (B.recache). Sibling defaults: a parameter taken by the same-named method of several container classes has the same default in each (confirmed exceptions listed in sfa/rules/forwardrules.py). Offset accumulation: the HLoc worklist walk of IndexLevel.loc_to_iloc hands the accumulated offset (popped offset + the node\'s own) to every child it pushes and to the leaf lookup. Open slice ends: under an offset (a sub-level of a hierarchy) every bound of the iloc slice LocMap.loc_to_iloc returns is explicit, so a half-open label slice at an inner depth stays inside its sub-level. Selection results own their labels: no selection route hands a grow-only member of its source (own_columns / own_index / own_data possibly True on a shared IndexGO / TypeBlocks) to the container it returns; otherwise later growth of either makes a label of the other select another label\'s data (C.own-handoff). Map-less route: every arm of Index._loc_to_iloc for an auto-integer index rejects negative integers before returning the key as a position (a negative label is absent, not a position from the end). Direction of the inclusive stop: every + 1 applied to a label-slice stop position is under a test of the sign of the step (four known findings: descending label slices stop early; the repair is blocked by a pinned test). Slice bounds under an offset: every start / stop position LocMap.map_slice_args yields has had the offset added on every path (exact, same-unit and coarser-unit datetime bounds). Auto-integer inner levels: the map-less route of Index._loc_to_iloc with an offset raises for keys outside 0..n-1 (element, list, array), honours partial_selection and gives slices explicit bounds, like the mapped route. Not decided: NumPy '
     'indexing semantics, negative / out-of-range slice arithmetic, Boolean-Series alignment values, datetime period matching.')
 
 CLAIM = dict(
@@ -39,3 +39,4 @@ def run(ctx: Ctx) -> None:
     selectrules.nomap_rejects_negative(ctx)
     selectrules.inclusive_stop_direction(ctx)
     selectrules.slice_bounds_offset(ctx)
+    selectrules.nomap_offset_membership(ctx)
